@@ -15,25 +15,37 @@ import (
 // ---- Deferred.tla: the restorer's deferred declaration links (Restorer.Extras) ----
 
 func c18Deferred(c *Ctx) bool {
-	cfg := func(n int, v string) string {
-		return fmt.Sprintf("CONSTANTS N = %d M = 2 Variant = \"%s\"\nINIT Init\nNEXT Next\nINVARIANTS AllLinked Complete\nCHECK_DEADLOCK FALSE\n", n, v)
+	cfg := func(n int, v string, coms bool) string {
+		return fmt.Sprintf("CONSTANTS N = %d M = 2 Variant = \"%s\" Coms = %s\nINIT Init\nNEXT Next\nINVARIANTS AllLinked Complete OnlyFileComments\nCHECK_DEADLOCK FALSE\n", n, v, tlaBool(coms))
 	}
 	n := 4
 	if !c.Quick() {
 		n = 5
 	}
-	r, err := RunTLC(TLCRun{Module: "Deferred", Cfg: cfg(n, "worklist"), Workers: 8, Timeout: 20 * time.Minute})
+	r, err := RunTLC(TLCRun{Module: "Deferred", Cfg: cfg(n, "worklist", false), Workers: 8, Timeout: 20 * time.Minute})
 	if err != nil || !r.OK() {
 		c.Infra("TLC model check of Deferred failed: " + errText(r, err))
 		return false
 	}
 	c.TLC(r)
-	v, err := RunTLC(TLCRun{Module: "Deferred", Cfg: cfg(4, "snapshot"), Workers: 8, Timeout: 20 * time.Minute})
+	// with comments on any subset of the nodes (one node less: 2^N times the states)
+	rc, err := RunTLC(TLCRun{Module: "Deferred", Cfg: cfg(n-1, "worklist", true), Workers: 8, Timeout: 20 * time.Minute})
+	if err != nil || !rc.OK() {
+		c.Infra("TLC model check of Deferred (with comments) failed: " + errText(rc, err))
+		return false
+	}
+	c.TLC(rc)
+	v, err := RunTLC(TLCRun{Module: "Deferred", Cfg: cfg(4, "snapshot", false), Workers: 8, Timeout: 20 * time.Minute})
 	if err != nil || v.Violated != "AllLinked" {
 		c.Infra("TLC did not reject the snapshot variant of Deferred: " + errText(v, err))
 		return false
 	}
-	c.Set("deferred_model", fmt.Sprintf("Deferred.tla: all forests of %d nodes (node 1 the file, other roots outside it) x identifier->object x object->declaration maps, 2 objects: AllLinked, Complete; ranging over the link table while it grows (snapshot variant) is rejected", n))
+	lc, err := RunTLC(TLCRun{Module: "Deferred", Cfg: cfg(3, "lateComments", true), Workers: 8, Timeout: 20 * time.Minute})
+	if err != nil || lc.Violated != "OnlyFileComments" {
+		c.Infra("TLC did not reject the lateComments variant of Deferred: " + errText(lc, err))
+		return false
+	}
+	c.Set("deferred_model", fmt.Sprintf("Deferred.tla: all forests of %d nodes (node 1 the file, other roots outside it) x identifier->object x object->declaration maps, 2 objects x which nodes carry comments: AllLinked, Complete, OnlyFileComments; ranging over the link table while it grows (snapshot variant) and handing the comment list to the file after the pass (lateComments variant) are rejected", n))
 	return true
 }
 
